@@ -14,9 +14,10 @@
 (* One action: Deliver(n) = the kernel hands the next n bytes of the stream to one read; then the receive side runs.  *)
 (* TLC explores every case of the catalogue `Cases` and EVERY way of cutting its byte string into reads.              *)
 (*                                                                                                                    *)
-(* The spec states the REQUIRED behaviour. Where the pinned code is known to lack a validation (it panics), the spec   *)
-(* still requires "session ends with an error" and additionally records the class of the input in the ghost `hit`, so  *)
-(* that the check can tell a listed known finding from a new violation:                                               *)
+(* The spec states the REQUIRED behaviour. For four input classes the originally pinned code lacked a validation and    *)
+(* panicked (repaired in /repo by "fix: malformed or misdirected control events crash the process"); the spec requires  *)
+(* "session ends with an error" for them and records the class in the ghost `hit`, so that the check can tell a listed  *)
+(* known finding from a new violation should one of them ever be listed in known-findings.txt instead of repaired:      *)
 (*   fallback-short-length        FallbackData event whose Length field is < 16 (header + seqID + status)             *)
 (*   hotrestart-no-manager        HotRestart event on a session that has no SessionManager                             *)
 (*   hotrestartack-no-listener    HotRestartAck event on a session that has no Listener                                *)
@@ -162,9 +163,8 @@ HsStep(S, w, K) ==
          <<Fail(S, "hs-error"), Drop(w, 1)>>
     [] S.phase = "c_ver" ->      \* clientGetProtocolInitializer: the server's version
          IF ~HeaderValid(w) \/ Typ(w) # 4 THEN <<Fail(S, "hs-error"), Drop(w, 8)>>
-         ELSE LET v == Min(3, Ver(w)) IN
-              IF v = 2 THEN <<[S EXCEPT !.ver = 2, !.phase = "run", !.hsdone = TRUE, !.sent = Append(@, 0)], Drop(w, 8)>>
-              ELSE IF v = 3 THEN <<[S EXCEPT !.ver = 3, !.phase = "c_rdy", !.sent = Append(@, 5)], Drop(w, 8)>>
+         ELSE LET v == Min(3, Ver(w)) IN     \* only version 3 can pass descriptors: a lower negotiated version is an error
+              IF v = 3 THEN <<[S EXCEPT !.ver = 3, !.phase = "c_rdy", !.sent = Append(@, 5)], Drop(w, 8)>>
               ELSE <<Fail(S, "hs-error"), Drop(w, 8)>>
     [] S.phase = "c_rdy" ->      \* sendMemFdToPeer: AckReadyRecvFD
          IF ~HeaderValid(w) \/ Typ(w) # 7 THEN <<Fail(S, "hs-error"), Drop(w, 8)>>
